@@ -1050,3 +1050,28 @@ def t_cpp_directive_exact(facts, res, tier):
                         if key not in seen:
                             seen.add(key)
                             res.inst(key, True, {"how": "match arm"})
+
+
+# ----------------------------------------------------------------------------- C08 (parameter substitution templates)
+
+
+@rule("T-CPP-TEMPLATE", floor=1,
+      text="where the preprocessor turns a macro parameter into a capture-group reference of the replacement template, the reference is braced "
+           "(`${name}`): an unbraced `$name` swallows identifier characters that follow it in the body (`n##_var` became the unknown group "
+           "`$n_var`, i.e. nothing)")
+def t_cpp_template(facts, res, tier):
+    fn = facts.fn("process", "")
+    n_sites = 0
+    for n in walk(fn["body"]):
+        if n.get("k") == "macro" and n["name"] == "format" and n.get("args") and n["args"][0].get("k") == "lit":
+            t = str(n["args"][0]["v"])
+            if t.startswith("$$") or t.startswith("${{") or re.match(r"^\$\$?\{", t):
+                n_sites += 1
+                key = "T-CPP-TEMPLATE:process:%d" % n_sites
+                res.inst(key, True, {"template": t})
+                if not re.match(r"^\$\$?\{\{\{[^}]*\}\}\}$", t):
+                    res.fail("T-CPP-TEMPLATE:process:unbraced", facts.where(fn, n),
+                             "the parameter reference is built with the template %r, i.e. `$name` without braces: in a body such as `n##_var` the regex crate "
+                             "reads `$n_var` as a group that does not exist and substitutes nothing" % t)
+    if n_sites == 0:
+        raise AnchorMissing("no `$`-reference template found in process()")
